@@ -755,6 +755,11 @@ class ImportanceNestedSampler(BaseNestedSampler):
             )
         if self.max_samples is not None and self.max_samples < self.nlive:
             raise ValueError("`max_samples` must be greater than `nlive`")
+        if self.n_update is not None and self.n_update >= self.n_initial:
+            raise ValueError(
+                "`n_update` must be less than the initial number of live "
+                "points"
+            )
         threshold_func = getattr(
             self, f"determine_threshold_{self.threshold_method}"
         )
